@@ -81,7 +81,7 @@ func (b *sqlite3KV) has(k string) (bool, error) {
 
 func (b *sqlite3KV) set(k string, bs []byte) error {
 	q := fmt.Sprintf(`update %s set v=? where k=?`, b.table)
-	res, err := b.db.X(q, bs, k)
+	res, err := b.db.X(q, sqlBytes(bs), k)
 	if err != nil {
 		return err
 	}
@@ -131,7 +131,7 @@ func (b *sqlite3KV) appendBytes(k string, bs []byte) error {
 			"on conflict (k) do update set v = %s.v || excluded.v",
 		b.table, b.table,
 	)
-	_, err := b.db.X(q, k, bs, "")
+	_, err := b.db.X(q, k, sqlBytes(bs), "")
 	return err
 }
 
